@@ -42,12 +42,24 @@ func c03World(tp *Tape, env *Env) (*Plan, *Violation) {
 	}
 	layout := genLayout(tp)
 	w := World{Readers: distribute(tp, prog, layout, 2)}
-	w.Host = HostSpec{Storer: []string{"rec", "mem"}[tp.Int(0, 1, "storer")], Probes: true, Seed: "s1", Handlers: cfg.Handlers}
+	w.Host = HostSpec{Storer: []string{"rec", "mem", "cells"}[tp.Int(0, 2, "storer")], Probes: true, Seed: "s1", Handlers: cfg.Handlers}
 	if len(cfg.Handlers) > 0 {
 		w.Host.Scheds = drawScheds(tp, true)
 	}
 	if tp.Chance(30, "prefill") {
 		w.Host.Prefill = map[string]Val{"pre": numV(3)}
+		if tp.Chance(50, "leftovers") {
+			// a storer that already served another dialogue: some of this script's own names are there, with a value of
+			// the type the script expects or of another one (a declaration of the other type must then fail)
+			for k := 0; k < 3; k++ {
+				for _, v := range g.vars[k] {
+					if tp.Chance(40, "leftover") {
+						w.Host.Prefill[v] = []Val{numV(float64(tp.Int(0, 9, "leftn"))), boolV(true), strV("left over")}[tp.Int(0, 2, "leftkind")]
+						env.St.fault("storer_with_values_left_over_from_an_earlier_dialogue")
+					}
+				}
+			}
+		}
 	}
 	m := newModel(prog, cfg.Handlers, w.Host.Scheds)
 	for k, v := range w.Host.Prefill {
